@@ -1,6 +1,7 @@
 (** C03: access lists.  Only statements here; proofs live in Proofs/Access.v. *)
 From Coq Require Import List NArith Bool.
 From AGH Require Import Base.Run Base.NetAddr Base.RuleEngine Model.Access Proofs.Access.
+From AGH Require Import Model.AccessPersist Proofs.AccessPersist.
 From AGH Require Base.Dom Model.ClientID Proofs.ClientID.
 Import ListNotations.
 Local Open Scope N_scope.
@@ -267,3 +268,183 @@ Example C03_interleaving_window_tight :
   snd (initial_read (fst (run_hist 2 a ex_tls (fst (before_step 2 a ex_tls x [])) ops)) (cx_rid x)) = [] /\
   snd (initial_read (fst (run_hist 3 a ex_tls (fst (before_step 3 a ex_tls x [])) ops)) (cx_rid x)) = [107;105;100].
 Proof. exact interleaving_window_tight. Qed.
+
+(** * The access settings across access/set, the saved configuration and a
+      restart (round 4) *)
+
+(** What validateAccessSet answers, in the order of its checks: a string
+    twice in the allowed list, in the disallowed list, in the blocked hosts,
+    a string on both client lists (compared as typed); otherwise valid. *)
+Theorem C03_access_set_validation : forall l,
+  match validate_access_set l with
+  | None => well_formed l
+  | Some ErrDupAllowed => ~ NoDup (allowed_texts l)
+  | Some ErrDupBlocked => NoDup (allowed_texts l) /\ ~ NoDup (blocked_texts l)
+  | Some ErrDupHosts => NoDup (allowed_texts l) /\ NoDup (blocked_texts l) /\ ~ NoDup (host_texts l)
+  | Some ErrIntersect =>
+      NoDup (allowed_texts l) /\ NoDup (blocked_texts l) /\ NoDup (host_texts l) /\
+      exists x, In x (allowed_texts l) /\ In x (blocked_texts l)
+  | Some _ => False
+  end.
+Proof. exact validate_access_set_spec. Qed.
+Print Assumptions C03_access_set_validation.
+
+(** access/set answers 200 exactly for a decodable, well-formed request all
+    of whose client strings are an address, a CIDR or a valid ClientID. *)
+Theorem C03_access_set_accepted_iff : forall w body,
+  snd (handle_access_set w body) = SetOK <-> exists l, body = Some l /\ accepted l.
+Proof. exact set_ok_iff. Qed.
+Print Assumptions C03_access_set_accepted_iff.
+
+Theorem C03_buildable_iff : forall l,
+  buildable l <-> usable (ls_allowed l) /\ usable (ls_blocked l).
+Proof. exact buildable_iff. Qed.
+Print Assumptions C03_buildable_iff.
+
+Theorem C03_unusable_client_string : forall c,
+  classify c = None <-> cs_parsed c = POther /\ ~ Base.Dom.valid_label (cs_text c).
+Proof. exact classify_none. Qed.
+Print Assumptions C03_unusable_client_string.
+
+(** A rejected request changes neither the running server nor the file. *)
+Theorem C03_rejected_set_changes_nothing : forall w body,
+  snd (handle_access_set w body) <> SetOK -> fst (handle_access_set w body) = w.
+Proof. exact set_rejected_unchanged. Qed.
+Print Assumptions C03_rejected_set_changes_nothing.
+
+(** An accepted request: what is saved is what is in force is what was
+    sent. *)
+Theorem C03_accepted_set_saved : forall w l w',
+  handle_access_set w (Some l) = (w', SetOK) ->
+  w_disk w' = sv_conf (w_srv w') /\ sv_conf (w_srv w') = l.
+Proof. exact saved_is_in_force_after_set. Qed.
+Print Assumptions C03_accepted_set_saved.
+
+(** After every step of every history from a start of the process: the
+    manager in force is the one built from the lists in force, and these are
+    the saved ones (with the default blocked hosts filled in after a start
+    from an empty blocked-hosts list). *)
+Theorem C03_persist_invariant : forall t c0 w0 ops,
+  boot c0 = Some w0 -> inv (fst (prun t w0 ops)).
+Proof. exact reachable_inv. Qed.
+Print Assumptions C03_persist_invariant.
+
+(** The server always comes up again from what it saved. *)
+Theorem C03_restart_never_fails : forall t c0 w0 ops,
+  boot c0 = Some w0 -> exists w1, restart (fst (prun t w0 ops)) = Some w1.
+Proof. exact reachable_restarts. Qed.
+Print Assumptions C03_restart_never_fails.
+
+(** For every history of access/set (accepted or rejected), other saves,
+    restarts, access/list and requests: the running server holds the lists
+    the API accepted last ([in_force]), and the server that comes up after a
+    restart decides every request by them: it is the very same server when
+    their blocked-hosts list is not empty; the three default names are
+    blocked in addition when it is empty. *)
+Theorem C03_restart_keeps_last_set : forall t c0 w0 ops,
+  boot c0 = Some w0 ->
+  let w := fst (prun t w0 ops) in
+  let l := in_force (init_default_settings c0) ops in
+  sv_conf (w_srv w) = l /\
+  exists a w1,
+    new_access_ctx (init_default_settings l) = inl a /\
+    restart w = Some w1 /\
+    w_srv w1 = mkServer (init_default_settings l) a /\
+    (forall x, probe t w1 x = handle_before_ctx a t x) /\
+    (ls_hosts l <> [] -> w_srv w1 = w_srv w).
+Proof. exact restart_keeps_last_set. Qed.
+Print Assumptions C03_restart_keeps_last_set.
+
+Theorem C03_set_then_restart : forall w l w',
+  handle_access_set w (Some l) = (w', SetOK) -> ls_hosts l <> [] -> restart w' = Some w'.
+Proof. exact set_then_restart. Qed.
+Print Assumptions C03_set_then_restart.
+
+(** "Never served" across the restart: a request the lists accepted last
+    exclude (address, ClientID or blocked name) gets no reply over UDP /
+    DNSCrypt and REFUSED elsewhere from the server that comes up. *)
+Theorem C03_excluded_after_restart : forall t c0 w0 ops a w1 x id,
+  boot c0 = Some w0 ->
+  new_access_ctx (in_force (init_default_settings c0) ops) = inl a ->
+  restart (fst (prun t w0 ops)) = Some w1 ->
+  extract_clientid t x = Some id ->
+  blocked_request a (cx_ip x) id (cx_q x) ->
+  probe t w1 x = pre_blocked (cx_proto x).
+Proof. exact excluded_after_restart. Qed.
+Print Assumptions C03_excluded_after_restart.
+
+(** "All other requests are served" across the restart (accepted
+    blocked-hosts list not empty). *)
+Theorem C03_admitted_after_restart : forall t c0 w0 ops a w1 x id,
+  boot c0 = Some w0 ->
+  new_access_ctx (in_force (init_default_settings c0) ops) = inl a ->
+  ls_hosts (in_force (init_default_settings c0) ops) <> [] ->
+  restart (fst (prun t w0 ops)) = Some w1 ->
+  extract_clientid t x = Some id ->
+  ~ blocked_request a (cx_ip x) id (cx_q x) ->
+  probe t w1 x = BContinue (match id with [] => None | _ => Some id end).
+Proof. exact admitted_after_restart. Qed.
+Print Assumptions C03_admitted_after_restart.
+
+(** Non-vacuity: a client is disallowed through the API, the process
+    restarts, the client gets no reply. *)
+Example C03_restart_premises_satisfiable :
+  exists w0 a w1,
+    boot ex_c0 = Some w0 /\
+    accepted ex_set /\
+    in_force (init_default_settings ex_c0) [PSet (Some ex_set); PList] = ex_set /\
+    new_access_ctx ex_set = inl a /\
+    restart (fst (prun ex_tls0 w0 [PSet (Some ex_set); PList])) = Some w1 /\
+    extract_clientid ex_tls0 (ex_udp ex_x_test) = Some [] /\
+    blocked_request a (Some ex_ip) [] (Some (ex_x_test, 1)) /\
+    probe ex_tls0 w0 (ex_udp ex_x_test) = BContinue None /\
+    probe ex_tls0 w1 (ex_udp ex_x_test) = BDrop.
+Proof. exact restart_premises_satisfiable. Qed.
+
+Example C03_rejected_requests :
+  validate_access_set (mkLists [ex_ip_str; ex_ip_str] [] []) = Some ErrDupAllowed /\
+  validate_access_set (mkLists [] [ex_kid_str; ex_ip_str; ex_kid_str] []) = Some ErrDupBlocked /\
+  validate_access_set (mkLists [] [] [ex_host_line; ex_host_line]) = Some ErrDupHosts /\
+  validate_access_set (mkLists [ex_kid_str] [ex_ip_str; ex_kid_str] []) = Some ErrIntersect /\
+  snd (handle_access_set (mkWorld (mkServer ex_c0 (new_access [] [] [])) ex_c0)
+         (Some (mkLists [mkCStr [98;95;100] POther] [] []))) = ErrBadAllowed /\
+  snd (handle_access_set (mkWorld (mkServer ex_c0 (new_access [] [] [])) ex_c0)
+         (Some (mkLists [] [mkCStr [] POther] []))) = ErrBadBlocked.
+Proof. exact rejected_requests. Qed.
+
+(** The unchanged code with an emptied blocked-hosts list: the running
+    server answers a query for version.bind, the one that comes up after a
+    restart refuses it (initDefaultSettings), and access/list shows the three
+    default names again. *)
+Example C03_restart_empty_hosts_gets_defaults :
+  exists w0 w w1,
+    boot ex_c0 = Some w0 /\
+    handle_access_set w0 (Some (mkLists [] [] [])) = (w, SetOK) /\
+    restart w = Some w1 /\
+    probe ex_tls0 w (ex_tcp (version_bind ++ [46])) = BContinue None /\
+    probe ex_tls0 w1 (ex_tcp (version_bind ++ [46])) = BRefused /\
+    handle_access_list w = ([], [], []) /\
+    handle_access_list w1 = ([], [], [version_bind; id_server; hostname_bind]).
+Proof. exact restart_empty_hosts_gets_defaults. Qed.
+
+(** The variant that calls the save callback before s.conf's lists are
+    replaced leaves the previous lists in the file ... *)
+Theorem C03_early_persist_lags : forall w l w',
+  handle_access_set_early w (Some l) = (w', SetOK) ->
+  w_disk w' = sv_conf (w_srv w) /\ sv_conf (w_srv w') = l.
+Proof. exact early_persist_lags. Qed.
+Print Assumptions C03_early_persist_lags.
+
+(** ... and violates the property: the client just disallowed gets no reply
+    from the running server and is served after a restart. *)
+Theorem C03_early_persist_refuted :
+  exists c0 l w0 w w1 x a,
+    boot c0 = Some w0 /\
+    handle_access_set_early w0 (Some l) = (w, SetOK) /\
+    restart w = Some w1 /\
+    new_access_ctx l = inl a /\ ls_hosts l <> [] /\
+    blocked_request a (cx_ip x) [] (cx_q x) /\
+    probe ex_tls0 w x = BDrop /\
+    probe ex_tls0 w1 x = BContinue None.
+Proof. exact early_persist_refuted. Qed.
+Print Assumptions C03_early_persist_refuted.
